@@ -3,7 +3,11 @@
 From ClapModel Require Import Base.Bytes Base.Machine Base.Utf8.
 From ClapModel Require Import Parse.Cmd Parse.Build Parse.Valid Parse.Matcher Parse.Errors Parse.Validator Parse.Parser.
 From ClapModel Require Import ParseProofs.Spelling ParseProofs.Dispatch ParseProofs.SpellingLine.
+From ClapModel Require Lex.LexProofs.
+From ClapModel Require Import ParseProofs.SpellingStep ParseProofs.SpellingDash ParseProofs.SpellingTree ParseProofs.SpellingNeg.
 From Coq Require Import ZArith List.
+From RecordUpdate Require Import RecordSet.
+Import RecordSetNotations.
 Import ListNotations.
 Open Scope N_scope.
 
@@ -478,3 +482,399 @@ Theorem C08_spelling_needs_success_witness : exists c0 tokA tokB v rest,
   out_kind (parse_top c0 ([112] :: tokB :: v :: rest)) = Some EUnknownArgument.
 Proof. exact spelling_needs_success_witness. Qed.
 Print Assumptions C08_spelling_needs_success_witness.
+
+(** * Round 3 *)
+
+(** ** the generic decomposition of the token loop (ParseProofs/SpellingStep.v)
+    [step c rest tok ls st]: one iteration as a function -- "go on from (ls', st')" or the way the loop is left;
+    [run c pre tail ls st]: [step] iterated over a prefix.  The model's loop body IS [step] followed by the loop on
+    the rest (every recursive call is a tail call), for every command, token and state: *)
+Theorem C08_loop_is_step : forall c tok rest ls st,
+  parse_loop c (tok :: rest) ls st =
+  match step c rest tok ls st with
+  | SGo ls1 st1 => parse_loop c rest ls1 st1
+  | SExit x => exit_res tok rest x
+  end.
+Proof. exact (fun c tok rest ls st => eq_trans (parse_loop_cons c tok rest ls st) (iteration_step c (parse_loop c rest) rest tok ls st)). Qed.
+Print Assumptions C08_loop_is_step.
+
+(** ANY prefix, ANY tail: [parse_loop (pre ++ tail)] = run [pre], then [parse_loop tail] from the state reached
+    (or the exit taken inside [pre], the unread tokens being its payload) *)
+Theorem C08_run_split : forall c pre tail ls st,
+  parse_loop c (pre ++ tail) ls st =
+  match run c pre tail ls st with
+  | inl (ls', st') => parse_loop c tail ls' st'
+  | inr (x, tok, pre') => exit_res tok (pre' ++ tail) x
+  end.
+Proof. exact run_split. Qed.
+Print Assumptions C08_run_split.
+
+(** the run over a prefix reads the tail only through the look-ahead of the positional counter correction *)
+Theorem C08_run_lookahead_only : forall c pre t1 t2 ls st,
+  (forall ls', pos_counter c t1 ls' = pos_counter c t2 ls') -> run c pre t1 ls st = run c pre t2 ls st.
+Proof. exact run_la. Qed.
+Print Assumptions C08_run_lookahead_only.
+
+Theorem C08_lookahead_first_token : forall c n r1 r2 ls, pos_counter c (n :: r1) ls = pos_counter c (n :: r2) ls.
+Proof. exact (fun c n r1 r2 => la_eq_head c n r1 r2). Qed.
+Print Assumptions C08_lookahead_first_token.
+
+(** a line that ends at this level has run through every prefix of itself: the hypothesis [run .. = inl ..] of the
+    theorems below holds for every successful line whose last level is this one *)
+Theorem C08_run_of_done : forall c pre tail ls st s, parse_loop c (pre ++ tail) ls st = ROk (LDone s) ->
+  exists ls' st', run c pre tail ls st = inl (ls', st') /\ parse_loop c tail ls' st' = ROk (LDone s).
+Proof. exact run_of_done. Qed.
+Print Assumptions C08_run_of_done.
+
+(** the loop only hands over states with [flag_subcmd_skip = 0]: the hypothesis [fs_skip st = 0] of the spelling
+    theorems holds at every state a prefix leads to (the line starts from [ps_new]) *)
+Theorem C08_step_keeps_skip0 : forall c rest tok ls st ls1 st1,
+  fs_skip st = 0 -> step c rest tok ls st = SGo ls1 st1 -> fs_skip st1 = 0.
+Proof. exact step_fs. Qed.
+Print Assumptions C08_step_keeps_skip0.
+
+Theorem C08_run_keeps_skip0 : forall c pre tail ls st ls' st',
+  fs_skip st = 0 -> run c pre tail ls st = inl (ls', st') -> fs_skip st' = 0.
+Proof. exact run_fs. Qed.
+Print Assumptions C08_run_keeps_skip0.
+
+Theorem C08_run_app : forall c p q tail ls st,
+  run c (p ++ q) tail ls st =
+  match run c p (q ++ tail) ls st with
+  | inl (ls', st') => run c q tail ls' st'
+  | inr (x, tok, p') => inr (x, tok, p' ++ q)
+  end.
+Proof. exact run_app. Qed.
+Print Assumptions C08_run_app.
+
+(** ** an explicit [--] before positionals that do not look like flags (ParseProofs/SpellingDash.v) *)
+Theorem C08_dash_classes_meaning : forall c,
+  (forall s, er s = s <| mt := (mt s) <| mt_pending :=
+                 opt_map (fun p => p <| p_trailing_idx := None |>) (mt_pending (mt s)) |> |>) /\
+  (dd_class c <-> is_set s_allow_missing_pos c = false /\ is_set s_dont_delimit_trailing c = false /\
+                  forall a, In a (c_args c) -> a_last a = false) /\
+  (forall t, pos_tok c t <->
+     is_escape t = false /\ to_long t = None /\ to_short t = None /\ possible_subcommand c t false = None) /\
+  (forall ls, dd_site c ls <->
+     l_trailing ls = false /\ (forall i, l_pst ls <> PSOpt i) /\
+     match state_arg c (l_pst ls) with ROk (Some b) => a_hyphen b = false | ROk None => True | _ => False end /\
+     possible_subcommand c dd false = None).
+Proof. exact dash_classes_meaning. Qed.
+Print Assumptions C08_dash_classes_meaning.
+
+Theorem C08_dd_rel_meaning : forall r2 r', dd_rel r2 r' ->
+  r2 = r' \/
+  (exists s2 s', r2 = ROk (LDone s2) /\ r' = ROk (LDone s') /\ er s2 = er s') \/
+  (exists n vals s2 s', r2 = ROk (LExternal n vals s2) /\ r' = ROk (LExternal n vals s') /\ er s2 = er s').
+Proof. exact dd_rel_meaning. Qed.
+Print Assumptions C08_dd_rel_meaning.
+
+(** without [dont_delimit_trailing_values] flushing does not read the trailing index *)
+Theorem C08_flush_ignores_trailing_index : forall c s2 s', is_set s_dont_delimit_trailing c = false ->
+  er s2 = er s' -> resolve_pending c s2 = resolve_pending c s'.
+Proof. exact (fun c s2 s' D => resolve_teq c D s2 s'). Qed.
+Print Assumptions C08_flush_ignores_trailing_index.
+
+(** the second bisimulation: loop states equal up to [l_trailing], parser states equal up to [p_trailing_idx];
+    ALL lines of positional-looking tokens *)
+Theorem C08_dashdash_bisim : forall c, dd_class c -> forall tail lB lA sB sA,
+  Forall (pos_tok c) tail ->
+  l_pst lB = l_pst lA -> l_pos lB = l_pos lA -> l_vaf lB = l_vaf lA -> l_trailing lB = true ->
+  (l_trailing lA = true \/ forall i, l_pst lA <> PSOpt i) ->
+  er sB = er sA ->
+  dd_rel (parse_loop c tail lB sB) (parse_loop c tail lA sA).
+Proof.
+  exact (fun c K tail lB lA sB sA F a b c0 d e H =>
+           dash_bisim c (proj1 (proj2 K)) (proj1 K) (proj2 (proj2 K)) tail lB lA sB sA F
+                      (conj a (conj b (conj c0 (conj d e)))) H).
+Qed.
+Print Assumptions C08_dashdash_bisim.
+
+(** the look-ahead of low-index multiples cannot tell the bare [--] from a positional value *)
+Theorem C08_dashdash_lookahead : forall c v t t' ls, pos_tok c v -> possible_subcommand c dd false = None ->
+  pos_counter c (dd :: t') ls = pos_counter c (v :: t) ls.
+Proof. exact (fun c v t t' ls P Q => la_dd c v t t' P Q ls). Qed.
+Print Assumptions C08_dashdash_lookahead.
+
+(** [pre -- tail] vs [pre tail], any prefix, at the loop level *)
+Theorem C08_explicit_dashdash_loop : forall c pre tail ls st ls' st',
+  dd_class c -> Forall (pos_tok c) tail -> tail <> [] ->
+  run c pre tail ls st = inl (ls', st') -> dd_site c ls' ->
+  dd_rel (parse_loop c (pre ++ dd :: tail) ls st) (parse_loop c (pre ++ tail) ls st).
+Proof.
+  exact (fun c pre tail ls st ls' st' K => dash_anywhere c (proj1 (proj2 K)) (proj1 K) (proj2 (proj2 K)) pre tail ls st ls' st').
+Qed.
+Print Assumptions C08_explicit_dashdash_loop.
+
+(** whole line: [p pre -- tail] = [p pre tail] *)
+Theorem C08_explicit_dashdash : forall c0 bin pre tail ls' st',
+  is_set s_no_binary_name c0 = false ->
+  let c := build_self (top_cmd c0 bin) in
+  is_set s_ignore_errors c = false -> dd_class c ->
+  Forall (pos_tok c) tail -> tail <> [] ->
+  run c pre tail ls_top ps_new = inl (ls', st') -> dd_site c ls' ->
+  parse_top c0 (bin :: pre ++ dd :: tail) = parse_top c0 (bin :: pre ++ tail).
+Proof. exact dash_top. Qed.
+Print Assumptions C08_explicit_dashdash.
+
+(** the same at any level of the tree (the level a subcommand name selected starts in [ls_top] from [ps_new]) *)
+Theorem C08_explicit_dashdash_level : forall c f pre tail ls' st',
+  is_set s_ignore_errors c = false -> dd_class c ->
+  Forall (pos_tok c) tail -> tail <> [] ->
+  run c pre tail ls_top ps_new = inl (ls', st') -> dd_site c ls' ->
+  gmw_rel (get_matches_with (S f) c (pre ++ dd :: tail) ps_new) (get_matches_with (S f) c (pre ++ tail) ps_new).
+Proof. exact dash_level. Qed.
+Print Assumptions C08_explicit_dashdash_level.
+
+(** the documented exceptions and the empty-tail observation (replayed on the implementation) *)
+Theorem C08_dashdash_exceptions :
+  valid w_last = true /\ differ (parse_top w_last [w_P; t_a]) (parse_top w_last [w_P; dd; t_a]) /\
+  valid w_miss = true /\ differ (parse_top w_miss [w_P; t_a; t_b]) (parse_top w_miss [w_P; dd; t_a; t_b]) /\
+  valid w_ddt = true /\ differ (parse_top w_ddt [w_P; [97; 44; 98]]) (parse_top w_ddt [w_P; dd; [97; 44; 98]]) /\
+  valid w_opt = true /\ differ (parse_top w_opt [w_P; [45; 45; 111; 112; 116]; t_a]) (parse_top w_opt [w_P; [45; 45; 111; 112; 116]; dd; t_a]) /\
+  valid w_sub = true /\ differ (parse_top w_sub [w_P; [114; 117; 110]]) (parse_top w_sub [w_P; dd; [114; 117; 110]]).
+Proof. exact dashdash_exceptions. Qed.
+Print Assumptions C08_dashdash_exceptions.
+
+Theorem C08_dashdash_empty_tail_witness :
+  out_ok (parse_top exd_cmd [[112]; t_a; t_b; t_c]) = true /\
+  out_kind (parse_top exd_cmd [[112]; t_a; t_b; t_c; dd]) = Some EMissingRequiredArgument.
+Proof. exact dashdash_empty_tail_witness. Qed.
+Print Assumptions C08_dashdash_empty_tail_witness.
+
+(** ** a rewritten occurrence ANYWHERE: arbitrary prefix, any level of the tree, compositions (ParseProofs/SpellingTree.v) *)
+
+(** [lvl_equiv]: one level of [get_matches_with] cannot tell two loop results apart; both bisimulation relations imply it *)
+Theorem C08_lvl_equiv_meaning : forall c r1 r2, lvl_equiv c r1 r2 <->
+  forall f, gmw_rel (post c (do lr <- r1; dispatch_lr c f lr)) (post c (do lr <- r2; dispatch_lr c f lr)).
+Proof. exact (fun c r1 r2 => iff_refl _). Qed.
+Print Assumptions C08_lvl_equiv_meaning.
+
+Theorem C08_lvl_equiv_sources : forall c r1 r2, is_set s_ignore_errors c = false ->
+  (r1 = r2 -> lvl_equiv c r1 r2) /\
+  (res_rel c r1 r2 -> lvl_equiv c r1 r2) /\
+  (is_set s_dont_delimit_trailing c = false -> dd_rel r1 r2 -> lvl_equiv c r1 r2) /\
+  (lvl_equiv c r1 r2 -> lvl_equiv c r2 r1) /\
+  (forall r3, lvl_equiv c r1 r2 -> lvl_equiv c r2 r3 -> lvl_equiv c r1 r3).
+Proof.
+  exact (fun c r1 r2 IE => conj (lvl_of_eq c r1 r2) (conj (lvl_of_res_rel c r1 r2 IE)
+          (conj (fun D => lvl_of_dd_rel c r1 r2 IE D) (conj (lvl_sym c r1 r2) (fun r3 => lvl_trans c r1 r2 r3))))).
+Qed.
+Print Assumptions C08_lvl_equiv_sources.
+
+(** what [occ_at] says (inversion principle, so that the definition cannot drift) *)
+Theorem C08_occ_at_meaning : forall TX TY c pre st0, occ_at TX TY c pre st0 ->
+  (forall ls, pos_counter c TX ls = pos_counter c TY ls) /\
+  ((exists ls' st', run c pre TX ls_top st0 = inl (ls', st') /\
+                    lvl_equiv c (parse_loop c TX ls' st') (parse_loop c TY ls' st')) \/
+   (exists n vaf st tok pre' sc0 sc,
+      is_set s_ignore_errors c = false /\
+      run c pre TX ls_top st0 = inr (XSub n false vaf st, tok, pre') /\
+      find_subcommand c n = Some sc0 /\ build_subcommand c (c_name sc0) = Some sc /\
+      occ_at TX TY sc pre' ps_new)).
+Proof. exact occ_at_meaning. Qed.
+Print Assumptions C08_occ_at_meaning.
+
+(** the occurrence anywhere in the tree: [get_matches_with] agrees at every fuel *)
+Theorem C08_respell_tree : forall TX TY c pre st0, occ_at TX TY c pre st0 ->
+  forall f, gmw_rel (get_matches_with f c (pre ++ TX) st0) (get_matches_with f c (pre ++ TY) st0).
+Proof. exact respell_tree. Qed.
+Print Assumptions C08_respell_tree.
+
+Theorem C08_respell_top : forall TX TY c0 bin pre,
+  is_set s_no_binary_name c0 = false ->
+  let c := build_self (top_cmd c0 bin) in
+  is_set s_ignore_errors c = false -> occ_at TX TY c pre ps_new ->
+  parse_top c0 (bin :: pre ++ TX) = parse_top c0 (bin :: pre ++ TY).
+Proof. exact respell_top. Qed.
+Print Assumptions C08_respell_top.
+
+(** behind an arbitrary prefix of its own level *)
+Theorem C08_respell_anywhere : forall c0 bin pre TX TY ls' st',
+  is_set s_no_binary_name c0 = false ->
+  let c := build_self (top_cmd c0 bin) in
+  is_set s_ignore_errors c = false -> (forall ls, pos_counter c TX ls = pos_counter c TY ls) ->
+  run c pre TX ls_top ps_new = inl (ls', st') ->
+  lvl_equiv c (parse_loop c TX ls' st') (parse_loop c TY ls' st') ->
+  parse_top c0 (bin :: pre ++ TX) = parse_top c0 (bin :: pre ++ TY).
+Proof. exact respell_anywhere. Qed.
+Print Assumptions C08_respell_anywhere.
+
+(** COMPOSITION: any chain of rewrites, each applicable to the line the previous ones produced *)
+Theorem C08_respell_chain_meaning : forall c L L', respell_chain c L L' ->
+  L = L' \/ exists pre TX TY, L = pre ++ TX /\ occ_at TX TY c pre ps_new /\ respell_chain c (pre ++ TY) L'.
+Proof. exact respell_chain_meaning. Qed.
+Print Assumptions C08_respell_chain_meaning.
+
+Theorem C08_spelling_compose : forall c0 bin L L',
+  is_set s_no_binary_name c0 = false ->
+  let c := build_self (top_cmd c0 bin) in
+  is_set s_ignore_errors c = false -> respell_chain c L L' ->
+  parse_top c0 (bin :: L) = parse_top c0 (bin :: L').
+Proof. exact respell_chain_top. Qed.
+Print Assumptions C08_spelling_compose.
+
+(** sufficient conditions for the look-ahead hypothesis *)
+Theorem C08_lookahead_criteria : forall c,
+  (no_lookahead c -> forall r1 r2 ls, pos_counter c r1 ls = pos_counter c r2 ls) /\
+  (forall t1 t2 r1 r2 ls, flag_tok t1 -> flag_tok t2 -> pa_is_negative_number t1 = pa_is_negative_number t2 ->
+     possible_subcommand c t1 false = None -> possible_subcommand c t2 false = None ->
+     pos_counter c (t1 :: r1) ls = pos_counter c (t2 :: r2) ls) /\
+  (forall t1 t2 n1 n2 r1 r2 ls,
+     possible_subcommand c t1 false = Some n1 -> possible_subcommand c t2 false = Some n2 ->
+     is_escape t1 = false -> to_long t1 = None -> to_short t1 = None ->
+     is_escape t2 = false -> to_long t2 = None -> to_short t2 = None ->
+     pos_counter c (t1 :: r1) ls = pos_counter c (t2 :: r2) ls).
+Proof.
+  exact (fun c => conj (fun N r1 r2 ls => la_none c r1 r2 N ls)
+          (conj (fun t1 t2 r1 r2 ls F1 F2 NN P1 P2 => la_flags c t1 t2 r1 r2 F1 F2 NN P1 P2 ls)
+                (fun t1 t2 n1 n2 r1 r2 ls P1 P2 E1 L1 S1 E2 L2 S2 =>
+                   la_subs_some c t1 t2 n1 n2 r1 r2 P1 P2 E1 L1 S1 E2 L2 S2 ls))).
+Qed.
+Print Assumptions C08_lookahead_criteria.
+
+Theorem C08_lookahead_classes_meaning : forall c,
+  (no_lookahead c <->
+     is_set s_allow_missing_pos c = false /\
+     (existsb (fun a => a_is_multiple a && negb (positional_count c =? opt_default 0 (a_index a))) (positionals c)
+      && match last (map Some (positionals c)) None with Some p => negb (a_last p) | None => false end) = false) /\
+  (forall t, flag_tok t <-> is_escape t = false /\ (to_long t <> None \/ to_short t <> None)).
+Proof. exact (fun c => conj (iff_refl _) (fun t => iff_refl _)). Qed.
+Print Assumptions C08_lookahead_classes_meaning.
+
+(** instances: [--opt=v] vs [--opt v], and a cluster vs its flags, behind ANY prefix the loop runs through *)
+Theorem C08_long_space_vs_eq_anywhere : forall c0 bin pre l v a r tokA tokB rest ls' st' x0,
+  is_set s_no_binary_name c0 = false ->
+  let c := build_self (top_cmd c0 bin) in
+  is_set s_ignore_errors c = false -> is_set s_sub_precedence c = false ->
+  (forall ls, pos_counter c (tokA :: rest) ls = pos_counter c (tokB :: v :: rest) ls) ->
+  run c pre (tokA :: rest) ls_top ps_new = inl (ls', st') ->
+  flag_site c ls' tokA -> flag_site c ls' tokB ->
+  to_long tokA = Some (l, true, Some v) -> to_long tokB = Some (l, true, None) ->
+  lookup_long c l = Some a -> single_opt c a r -> plain_value a v ->
+  react c (Some ILong) SCmdLine a [v] None st' = ROk x0 ->
+  parse_top c0 (bin :: pre ++ tokA :: rest) = parse_top c0 (bin :: pre ++ tokB :: v :: rest).
+Proof. exact long_space_vs_eq_anywhere. Qed.
+Print Assumptions C08_long_space_vs_eq_anywhere.
+
+Theorem C08_cluster_vs_singles_anywhere : forall c0 bin pre chs ch0 rest ls' st',
+  is_set s_no_binary_name c0 = false ->
+  let c := build_self (top_cmd c0 bin) in
+  is_set s_ignore_errors c = false ->
+  (forall x, find_short_subcmd c x = None) -> (forall t vaf, possible_subcommand c (45 :: t) vaf = None) ->
+  (forall ls, pos_counter c ((45 :: ch0 :: chs) :: rest) ls = pos_counter c (map (fun ch => [45; ch]) (ch0 :: chs) ++ rest) ls) ->
+  run c pre ((45 :: ch0 :: chs) :: rest) ls_top ps_new = inl (ls', st') ->
+  Forall (fun ch => ch < 128 /\ ch <> 45 /\ exists a, get_short c ch = Some a /\ a_takes_value a = false) (ch0 :: chs) ->
+  l_trailing ls' = false -> l_pst ls' = PSValuesDone -> no_hyphen_pos c (l_pos ls') ->
+  parse_top c0 (bin :: pre ++ (45 :: ch0 :: chs) :: rest) =
+  parse_top c0 (bin :: pre ++ map (fun ch => [45; ch]) (ch0 :: chs) ++ rest).
+Proof. exact cluster_vs_singles_anywhere. Qed.
+Print Assumptions C08_cluster_vs_singles_anywhere.
+
+(** ** subcommand alias / inferred prefix vs canonical name: two tokens the lookup answers with names that
+    [find_subcommand] resolves to the same child are level-equivalent (with [C08_respell_anywhere]: whole lines) *)
+Theorem C08_sub_name_respell : forall c t1 t2 n1 n2 rest ls st,
+  l_trailing ls = false ->
+  (is_set s_sub_precedence c || match l_pst ls with PSValuesDone => true | _ => false end) = true ->
+  possible_subcommand c t1 (l_vaf ls) = Some n1 -> possible_subcommand c t2 (l_vaf ls) = Some n2 ->
+  (beq n1 s_help && negb (is_set s_disable_help_sub c)) = false ->
+  (beq n2 s_help && negb (is_set s_disable_help_sub c)) = false ->
+  find_subcommand c n1 = find_subcommand c n2 ->
+  lvl_equiv c (parse_loop c (t1 :: rest) ls st) (parse_loop c (t2 :: rest) ls st).
+Proof. exact sub_name_respell. Qed.
+Print Assumptions C08_sub_name_respell.
+
+(** ** detached vs attached values that look like negative numbers (ParseProofs/SpellingNeg.v) *)
+
+(** the parser model's [is_number] accepts exactly the number language of the lexer (C13: [number_lang]) *)
+Theorem C08_is_number_lang : forall s, is_number s = true <-> LexProofs.number_lang s.
+Proof. exact is_number_lang. Qed.
+Print Assumptions C08_is_number_lang.
+
+Theorem C08_negnum_classes_meaning : forall c,
+  (forall a v, negnum_value a v <->
+     a_negnum a = true /\ (exists r, to_short v = Some r /\ sf_is_negative_number r = true) /\
+     check_terminator a v = false) /\
+  (forall a v, takes_as_value c a v <->
+     forall rest pos vaf st,
+     parse_loop c (v :: rest) (mkL (PSOpt (a_id a)) pos vaf false) st =
+     (do a0 <- expect 290 (find_arg c (a_id a));
+      if check_terminator a0 v then parse_loop c rest (mkL PSValuesDone pos vaf false) st
+      else do y <- take_value c (a_id a) v st;
+           parse_loop c rest (mkL (if snd y then PSOpt (a_id a) else PSValuesDone) pos vaf false) (fst y))).
+Proof. exact (fun c => conj (fun a v => iff_refl _) (fun a v => iff_refl _)). Qed.
+Print Assumptions C08_negnum_classes_meaning.
+
+(** EVERY [-m] with [m] in the number language is a negative-number value of an option that allows them *)
+Theorem C08_number_is_negnum_value : forall a m,
+  a_negnum a = true -> utf8_valid m = true -> m <> [] -> hd 0 m <> 45 ->
+  LexProofs.number_lang m -> check_terminator a (45 :: m) = false -> negnum_value a (45 :: m).
+Proof. exact number_is_negnum_value. Qed.
+Print Assumptions C08_number_is_negnum_value.
+
+(** with the option waiting, the loop hands such a token to it (MaybeHyphenValue route), as it does a plain token *)
+Theorem C08_negnum_token_is_value : forall c a v,
+  is_set s_sub_precedence c = false -> find_arg c (a_id a) = Some a ->
+  (negnum_value a v \/ plain_value a v) -> takes_as_value c a v.
+Proof.
+  exact (fun c a v SP FA H => match H with
+                              | or_introl N => negnum_takes c a v SP FA N
+                              | or_intror P => plain_takes c a v SP P
+                              end).
+Qed.
+Print Assumptions C08_negnum_token_is_value.
+
+(** [--opt v] = [--opt=v] and [-o v] = [-ov] for ANY token the loop hands to the option *)
+Theorem C08_long_space_vs_eq_any_value : forall c l v a r tokA tokB rest ls st x0,
+  flag_site c ls tokA -> flag_site c ls tokB ->
+  to_long tokA = Some (l, true, Some v) -> to_long tokB = Some (l, true, None) ->
+  lookup_long c l = Some a -> single_opt c a r -> takes_as_value c a v -> check_terminator a v = false ->
+  fs_skip st = 0 ->
+  react c (Some ILong) SCmdLine a [v] None st = ROk x0 ->
+  res_rel c (parse_loop c (tokB :: v :: rest) ls st) (parse_loop c (tokA :: rest) ls st).
+Proof. exact long_space_vs_eq_vs. Qed.
+Print Assumptions C08_long_space_vs_eq_any_value.
+
+Theorem C08_short_space_vs_att_any_value : forall c ch a r b t rA rB tokA tokB rest ls st x0,
+  short_site c ls tokA -> short_site c ls tokB ->
+  to_short tokA = Some rA -> sf_next rA = Some (inl ch, b :: t) -> b <> 61 ->
+  to_short tokB = Some rB -> sf_next rB = Some (inl ch, []) ->
+  get_short c ch = Some a -> single_opt c a r -> takes_as_value c a (b :: t) -> check_terminator a (b :: t) = false ->
+  fs_skip st = 0 ->
+  react c (Some IShort) SCmdLine a [b :: t] None st = ROk x0 ->
+  res_rel c (parse_loop c (tokB :: (b :: t) :: rest) ls st) (parse_loop c (tokA :: rest) ls st).
+Proof. exact short_space_vs_att_vs. Qed.
+Print Assumptions C08_short_space_vs_att_any_value.
+
+(** whole lines: [p --opt -1. rest] = [p --opt=-1. rest], [p -o -1. rest] = [p -o-1. rest] *)
+Theorem C08_negnum_long_space_vs_eq_line : forall c0 bin l v a r tokA tokB rest x0,
+  is_set s_no_binary_name c0 = false ->
+  let c := build_self (top_cmd c0 bin) in
+  is_set s_ignore_errors c = false -> is_set s_sub_precedence c = false ->
+  flag_site c ls_top tokA -> flag_site c ls_top tokB ->
+  to_long tokA = Some (l, true, Some v) -> to_long tokB = Some (l, true, None) ->
+  lookup_long c l = Some a -> single_opt c a r -> negnum_value a v ->
+  react c (Some ILong) SCmdLine a [v] None ps_new = ROk x0 ->
+  parse_top c0 (bin :: tokB :: v :: rest) = parse_top c0 (bin :: tokA :: rest).
+Proof. exact long_space_vs_eq_negnum_top. Qed.
+Print Assumptions C08_negnum_long_space_vs_eq_line.
+
+Theorem C08_negnum_short_space_vs_att_line : forall c0 bin ch a r b t rA rB tokA tokB rest x0,
+  is_set s_no_binary_name c0 = false ->
+  let c := build_self (top_cmd c0 bin) in
+  is_set s_ignore_errors c = false -> is_set s_sub_precedence c = false ->
+  short_site c ls_top tokA -> short_site c ls_top tokB ->
+  to_short tokA = Some rA -> sf_next rA = Some (inl ch, b :: t) -> b <> 61 ->
+  to_short tokB = Some rB -> sf_next rB = Some (inl ch, []) ->
+  get_short c ch = Some a -> single_opt c a r -> negnum_value a (b :: t) ->
+  react c (Some IShort) SCmdLine a [b :: t] None ps_new = ROk x0 ->
+  parse_top c0 (bin :: tokB :: (b :: t) :: rest) = parse_top c0 (bin :: tokA :: rest).
+Proof. exact short_space_vs_att_negnum_top. Qed.
+Print Assumptions C08_negnum_short_space_vs_att_line.
+
+(** the four documented shapes [-1], [-1.], [-2.5], [-1e3] are such values (pins the model's lexer test) *)
+Theorem C08_negnum_documented_shapes :
+  Forall (fun v => negnum_value exn_scale v) [n_1; n_1dot; n_2_5; n_1e3] /\
+  Forall (fun m => LexProofs.number_lang m) [[49]; [49; 46]; [50; 46; 53]; [49; 101; 51]].
+Proof. exact exn_numbers. Qed.
+Print Assumptions C08_negnum_documented_shapes.
